@@ -86,3 +86,54 @@ pub fn run(seed: u64, n: usize) -> Result<(usize, usize), String> {
     }
     Ok((products, ratios))
 }
+
+#[cfg(test)]
+mod scale_rule {
+    use super::*;
+
+    /// Is "the product kept the price's scale" equivalent to "the product was exact at that
+    /// scale" for rust_decimal's checked_mul with an integer factor?
+    #[test]
+    fn scale_preserved_iff_exact_at_scale() {
+        let mut r = Lcg(0x1234_5678_9abc_def1);
+        let mut kept = 0;
+        let mut reduced = 0;
+        for _ in 0..3_000_000 {
+            let digits = 1 + r.below(28) as u32;
+            let mut mant: u128 = 0;
+            for _ in 0..digits {
+                mant = mant * 10 + r.below(10) as u128;
+            }
+            if mant == 0 || mant >= (1u128 << 96) {
+                continue;
+            }
+            let scale = r.below(19) as u32;
+            let ad = 1 + r.below(24) as u32;
+            let mut amt: u128 = 0;
+            for _ in 0..ad {
+                amt = amt * 10 + r.below(10) as u128;
+            }
+            if amt == 0 || amt >= (1u128 << 96) {
+                continue;
+            }
+            let price = Decimal::from_i128_with_scale(mant as i128, scale);
+            let exact_mant = num::u(mant) * num::u(amt);
+            let fits = exact_mant < num::two96();
+            match price.checked_mul(Decimal::from(amt)) {
+                None => assert!(!fits, "overflow reported for a product that fits: {} x {}", price, amt),
+                Some(p) => {
+                    if p.scale() == price.scale() {
+                        assert!(fits, "scale kept but mantissa does not fit: {} x {} = {}", price, amt, p);
+                        assert_eq!(p.mantissa() as u128, mant * amt, "{} x {}", price, amt);
+                        kept += 1;
+                    } else {
+                        assert!(!fits, "scale reduced although the exact product fits: {} x {} = {}", price, amt, p);
+                        reduced += 1;
+                    }
+                }
+            }
+        }
+        eprintln!("kept {} reduced {}", kept, reduced);
+        assert!(kept > 100_000 && reduced > 100_000);
+    }
+}
